@@ -44,6 +44,9 @@ type Monitor struct {
 	Rule        string
 	Assumptions []string
 	MinDistinct int
+	// MinCounters: a run in which one of these counters stays below its
+	// minimum observed too little to mean anything (BROKEN-RUN, exit 2).
+	MinCounters map[string]int64
 	Race        bool // must run in the -race binary
 	Plan        func(tier string) []Suite
 	Run         func(c *Ctx)
